@@ -22,6 +22,7 @@ import z3
 from pyvc.contract import Contract, LoopSpec, register, schema
 from pyvc.gmodels import to_val  # noqa: F401
 from pyvc.plug_c17b import LISTS, MdoFun, NAME_LIST, TMdoFun, adapter_dim, adapter_linear, list_el, list_n
+from contracts import c17_consistency as K17  # noqa: F401  (ConsistencyInit: its construction precondition is checked in _build_constraints)
 from contracts import c17_formulations as F17  # noqa: F401  (schemas OP#c17 / DS#c17)
 from pyvc.values import TBool, TInt, TList, TNd, TObj, TRec, TStr, TVal, ValS, declare_ghost, str_lit, val_of_int
 
@@ -44,7 +45,7 @@ oc_of = z3.Function("c17_output_couplings", ValS, z3.BoolSort(), LISTS)  # Coupl
 lin_of = z3.Function("c17_linear_approximation", MdoFun, ValS, STR, MdoFun)  # compute_linear_approximation(function, x_vect, f_type=...)
 np_zeros = z3.Function("np_numpy_zeros_1", ValS, ValS)  # the opaque numpy layer's zeros(n)
 
-schema(CS + "#c17b", {})
+schema(CS + "#c17b", {"all_couplings": NAME_LIST})  # (model field: what the lazily computed property all_couplings returns)
 schema(OP + "#c17b", {})
 DSC = "gemseo.algos.design_space.DesignSpace"
 SETTINGS = TRec("IDFSettingsC17", {"n_processes": TInt, "use_threading": TBool, "normalize_constraints": TBool, "start_at_equilibrium": TBool})
@@ -68,7 +69,14 @@ class OutputCouplingsAbstract(Contract):
     def ensures(self, c):
         s = c.old.strong
         t = oc_of(c.old.discipline, z3.BoolVal(s) if isinstance(s, bool) else s)
-        return [("length", c.result.n == list_n(t)), ("names", c.result.elems == list_el(t))]
+        out = [("length", c.result.n == list_n(t)), ("names", c.result.elems == list_el(t))]
+        if s is False:
+            # C08 (GetOutputCouplings): with strong=False the names are taken among all the couplings of the structure
+            ac, r = c.old.self.all_couplings, c.result
+            i, j = z3.Int("i!oc"), z3.Int("j!oc")
+            out.append(("output-couplings-are-couplings", z3.ForAll([i], z3.Implies(z3.And(0 <= i, i < r.n), z3.Exists([j], z3.And(0 <= j, j < ac.n, ac.elems[j] == r.elems[i]))),
+                                                                   patterns=[r.elems[i]])))
+        return out
 
 
 @register
@@ -171,7 +179,9 @@ class IdfBuildConstraints(Contract):
         # variable) and sets normalize_constraints BEFORE it builds the constraints
         s = c.old.self
         return [("couplings-are-design-variables", couplings_in_ds(s.all_couplings, s.optimization_problem.design_space._variables)),
-                ("normalize-constraints-is-the-setting", s.normalize_constraints == s._settings.normalize_constraints)]
+                ("normalize-constraints-is-the-setting", s.normalize_constraints == s._settings.normalize_constraints),
+                ("all-couplings-are-those-of-the-coupling-structure", z3.And(s.all_couplings.n == s.coupling_structure.all_couplings.n,
+                                                                              s.all_couplings.elems == s.coupling_structure.all_couplings.elems))]
 
     def axioms(self, c):
         return cnt_axioms(c.old.self._BaseFormulation__disciplines.elems)
